@@ -254,6 +254,19 @@ Theorem C18_cron_reconcile : forall (next : Z -> Z) (lenient : bool) (hi : Z),
 Proof. exact reconcile_spec. Qed.
 Print Assumptions C18_cron_reconcile.
 
+(* the start time of a reconcile IS the latest schedule point not after now *)
+Theorem C18_cron_reconcile_starts_latest : forall (next : Z -> Z) (lenient : bool) (hi : Z),
+  (forall t, t <= hi -> t < next t) ->
+  (forall t s, t <= hi -> sched next hi s -> t < s -> next t <= s) ->
+  (forall t, t <= hi -> exists k, next t = k * sec) ->
+  forall fuel s now fc s' o t,
+  reconcile next lenient fuel s now fc = (s', o) -> state_ok s -> bounded hi s -> now <= hi ->
+  starts o t ->
+  sched next hi t /\ (forall p, sched next hi p -> t < p -> now < p) /\
+  earliest_time (c_created (s_spec s)) (st_last (s_status s)) (c_deadline (s_spec s)) now true < t /\ t <= now.
+Proof. exact cron_reconcile_starts_latest. Qed.
+Print Assumptions C18_cron_reconcile_starts_latest.
+
 Theorem C18_cron_respects_suspend : forall (next : Z -> Z) (lenient : bool) fuel s now fc s' o,
   reconcile next lenient fuel s now fc = (s', o) -> c_suspend (s_spec s) = true -> o_creates o = [].
 Proof. exact cron_respects_suspend. Qed.
@@ -293,7 +306,34 @@ Theorem C18_cron_forbid_no_live_run : forall next lenient fuel pre s0 s1 outs1 n
 Proof. exact cron_forbid_no_live_run. Qed.
 Print Assumptions C18_cron_forbid_no_live_run.
 
-(* adoption by name: createJob hits AlreadyExists on an unfinished job of this
+(* ... and Forbid is NOT kept once the controller's view is stale.  (a) job-lister
+   lag: getJobsByCronJob and the active-reference look-up read the informer
+   (handler 164, 266; upstream does a live GET): a reconcile whose lister does
+   not show the run just started drops its reference, and the next schedule
+   point starts a second run next to it - every status write succeeding.
+   (b) lost status write: the run was never recorded.  Both reproduced on the
+   real syncCronJob (known findings C18/forbid-job-lister-lag, C18/lost-status-write). *)
+Theorem C18_cron_forbid_lister_lag_refuted :
+  exists (s : cstate) (ops : list op2),
+    state_ok s /\ c_policy (s_spec s) = Forbid /\
+    let '(s', outs) := run2 next_pairs false 10 s ops in
+    created_times outs = [100 * sec; 200 * sec] /\
+    length (live_owned (s_jobs s')) = 2%nat /\ Forall (fun o => o_err o <> E_FUEL) outs.
+Proof. exact cron_forbid_lister_lag_refuted. Qed.
+Print Assumptions C18_cron_forbid_lister_lag_refuted.
+
+Theorem C18_cron_forbid_lost_write_refuted :
+  exists (s : cstate) (ops : list op2),
+    state_ok s /\ c_policy (s_spec s) = Forbid /\
+    let '(s', outs) := run2 next_pairs false 10 s ops in
+    created_times outs = [100 * sec; 200 * sec] /\
+    length (live_owned (s_jobs s')) = 2%nat /\ Forall (fun o => o_err o <> E_FUEL) outs.
+Proof. exact cron_forbid_lost_write_refuted. Qed.
+Print Assumptions C18_cron_forbid_lost_write_refuted.
+
+(* adoption by name (for a job client that can fetch the conflicting job, i.e.
+   ignores the empty namespace - against a real API server the branch ends in an
+   error, finding 3): createJob hits AlreadyExists on an unfinished job of this
    CronJob that the job client can fetch: nothing is created and the job is
    referenced in status.active afterwards (so C18_cron_forbid_live applies at
    the next schedule point); unless it was referenced already, lastScheduleTime
@@ -369,12 +409,27 @@ Theorem C18_law_reconcile_sound : forall tbl o, Laws.law_reconcile tbl o = true 
      earliest_time (c_created (Laws.b_spec o)) (Laws.b_last o) (c_deadline (Laws.b_spec o)) (Laws.b_now o) true < t /\
      t <= Laws.b_now o /\ (forall p, In p tbl -> t < p -> Laws.b_now o < p) /\
      nm = job_name_of t /\ last_lt (Laws.b_last o) t) /\
-  (c_policy (Laws.b_spec o) = Forbid -> Laws.b_creates o <> [] ->
-   forall r j, In r (Laws.b_active o) -> find_job (Laws.b_jobs o) (r_name r) = Some j -> j_uid j = r_uid r ->
-               finished (j_phase j) = true) /\
   Laws.law_adoption o = true.
 Proof. exact law_reconcile_sound. Qed.
 Print Assumptions C18_law_reconcile_sound.
+
+(* law 123 (clause 7 on observed behaviour): a Delete issued by the history limits hits a
+   finished run of this CronJob on the API server *)
+Theorem C18_law_deletes_sound : forall o nm, Laws.law_deletes o = true -> In (nm, false) (Laws.b_deletes o) ->
+  forall j, find_job (Laws.b_jobs o) nm = Some j -> j_owner j = OwnThis /\ finished (j_phase j) = true.
+Proof. exact law_deletes_sound. Qed.
+Print Assumptions C18_law_deletes_sound.
+
+(* law 122: under Forbid a Create happens only when no run this controller
+   started / adopted / was handed is still unfinished on the API server *)
+Theorem C18_law_forbid_live_sound : forall o, Laws.law_forbid_live o = true ->
+  c_policy (Laws.b_spec o) = Forbid -> Laws.b_creates o <> [] ->
+  (forall j, In j (Laws.b_jobs o) -> j_owner j = OwnThis -> finished (j_phase j) = false ->
+             In (j_uid j) (Laws.b_known o) -> In (j_name j) (map fst (Laws.b_deletes o))) /\
+  (forall r j, In r (Laws.b_active o) -> find_job (Laws.b_jobs o) (r_name r) = Some j -> j_uid j = r_uid r ->
+               finished (j_phase j) = true \/ In (r_name r) (map fst (Laws.b_deletes o))).
+Proof. exact law_forbid_live_sound. Qed.
+Print Assumptions C18_law_forbid_live_sound.
 
 Theorem C18_law_adoption_sound : forall o nm t j, Laws.law_adoption o = true ->
   In (nm, t) (Laws.b_conflicts o) -> find_job (Laws.b_jobs o) nm = Some j ->
@@ -416,3 +471,18 @@ Example C18_controller_nonvacuous :
   map o_hist_deletes outs = [[7]; []; [8]] /\
   Forall (fun o => o_err o <> E_FUEL) outs.
 Proof. exact controller_nonvacuous. Qed.
+
+Example C18_table_nonvacuous :
+  tbl_ok ex_tbl /\ (exists p, In p ex_tbl /\ 250 * sec < p) /\
+  bounded (250 * sec) ex_state /\ inv_live ex_state /\
+  Forall (op_ok (250 * sec)) [OpReconcile (100 * sec) false; OpReconcile (200 * sec + 5) false] /\
+  let '(_, outs) := run (next_tbl ex_tbl) false (S (S (S (length ex_tbl)))) ex_state
+                        [OpReconcile (100 * sec) false; OpReconcile (200 * sec + 5) false] in
+  created_times outs = [100 * sec].
+Proof. exact table_nonvacuous. Qed.
+
+Example C18_regular_nonvacuous :
+  (forall t s, t <= 250 * sec -> sched (next_tbl ex_tbl) (250 * sec) s -> t < s -> next_tbl ex_tbl t <= s) /\
+  (forall s, s <= 250 * sec -> sched (next_tbl ex_tbl) (250 * sec) s -> next_tbl ex_tbl s = s + 100 * sec) /\
+  exists t, next_schedule_time (next_tbl ex_tbl) 2 0 None None (250 * sec) = NsOk (Some t).
+Proof. exact regular_nonvacuous. Qed.
